@@ -337,6 +337,9 @@ def run_property(pid, tier, seed, replay=None):
         cases = corp + list(mod.generate(rng, eff_tier))
     lines = [c[0] for c in cases]
     tags = [c[1] for c in cases]
+    if replay is None and len(lines) - n_corpus < int(getattr(mod, "MIN_REQUESTS", 20)):
+        # a generator that produces (almost) nothing would make the check pass vacuously
+        raise BrokenCheck(f"the generator produced only {len(lines) - n_corpus} requests")
 
     model_out = run_model(lines)
     jobs = int(os.environ.get("VERIF_JOBS", "16"))
